@@ -353,8 +353,8 @@ func c10Main(args []string) error {
 			c10Stress(w, rng, 1+rng.Intn(4), 1+rng.Intn(4), i%4 == 1, i%4 == 2)
 			c10SubscribeRace(w, 8, 3)
 			runs += 2
-			if i%4 == 0 {
-				c10ChurnRace(w, 400, 6, 12)
+			if i%2 == 0 {
+				c10ChurnRace(w, 300+100*(i%3), 6, 12)
 				runs++
 			}
 		}
